@@ -196,6 +196,14 @@ class Arm:
         self.arms = set(arms) if not isinstance(arms, str) else {arms}
         self.name = name or "%s=>%s" % (origin_re, sorted(self.arms))
         self.nth = nth  # pick the n-th matching switch in block order (0-based); None = all
+        # a label written "!v" selects every arm of the switch except the one labelled v (so `Ok` of a two-variant
+        # Result is "!1" whether the compiler emitted [0: ok, 1: err] or [1: err, otherwise: ok])
+        self.excl = {a[1:] for a in self.arms if a.startswith("!")}
+
+    def selects(self, lab):
+        if self.excl:
+            return lab not in self.excl
+        return lab in self.arms
 
     def switches(self, fn):
         out = []
@@ -211,7 +219,7 @@ class Arm:
         return out
 
     def target_blocks(self, fn):
-        return [t for b in self.switches(fn) for (lab, t) in b.succs if lab in self.arms]
+        return [t for b in self.switches(fn) for (lab, t) in b.succs if self.selects(lab)]
 
 
 class Graph:
@@ -503,14 +511,14 @@ def _filtered_edges(g, assume=(), cut=()):
             raise PatternError("assumed arm %s matches no switch in %s" % (a.name, fn.name))
         for b in sw:
             for lab, _t in b.succs:
-                if lab not in a.arms:
+                if not a.selects(lab):
                     drop.add((b.idx, lab))
     for a in cut:
         if not a.switches(fn):
             raise PatternError("arm %s matches no switch in %s" % (a.name, fn.name))
         for b in a.switches(fn):
             for lab, _t in b.succs:
-                if lab in a.arms:
+                if a.selects(lab):
                     drop.add((b.idx, lab))
     return [(s, d, l, bi) for (s, d, l, bi) in g.edges if (bi, l) not in drop]
 
@@ -641,7 +649,8 @@ class FnCheck:
         return Result("inconclusive", str(payload), queries=q, seconds=s, sample=sample)
 
     # NEVER(B) under assumptions: B unreachable (optionally from A)
-    def never(self, B, assume=(), cut=(), frm=None, need_witness_without=True):
+    def never(self, B, assume=(), cut=(), frm=None, need_witness_without=True, strict=False):
+        """`strict`: paths start just *after* an occurrence of `frm` (so that frm == B asks about the next occurrence)."""
         if self.fn is None:
             return self.missing()
         ms = [B] + ([frm] if (frm and not isinstance(frm, Arm)) else [])
@@ -661,6 +670,9 @@ class FnCheck:
         sources = g.ev_nodes[frm.name] if frm else [g.entry]
         if frm and not sources:
             return Result("inconclusive", "pattern A=%s matched nothing" % frm.name, queries=q, seconds=s)
+        if frm and strict:
+            src = set(sources)
+            sources = sorted({d for (s_, d, _l, _bi) in edges if s_ in src})
         res, payload, q3, s3 = self._q(g, edges, sources, g.ev_nodes[B.name])
         q += q3
         s += s3
@@ -672,14 +684,14 @@ class FnCheck:
         return Result("inconclusive", str(payload), queries=q, seconds=s, sample=sample)
 
     # ONLY_VIA(B, arm): B is reachable only through the selected arm(s) of the matching switch
-    def only_via(self, B, arm, assume=(), frm=None):
+    def only_via(self, B, arm, assume=(), frm=None, strict=False):
         if self.fn is None:
             return self.missing()
         sw = arm.switches(self.fn)
         if not sw:
             return Result("inconclusive", "no switch with origin /%s/ in %s" % (arm.origin_re.pattern, self.name))
         # cut = the selected arm removed: then B must be unreachable
-        r = self.never(B, assume=assume, cut=[arm], frm=frm)
+        r = self.never(B, assume=assume, cut=[arm], frm=frm, strict=strict)
         if r.sample:
             r.sample["kind"] = "ONLY_VIA"
             r.sample["arm"] = arm.name
